@@ -1,7 +1,9 @@
 (* C13: the interactive loop (`aldor -gloop`) as a fold over the forms typed in.
    Definitions only (facts in Facts.v).  Built on the MiniAldor reference semantics:
-   AV.Mini.Session.step_item evaluates ONE top-level form exactly as the batch evaluator
-   AV.Mini.Eval.eval_items does for a whole file.
+   [form_step] evaluates ONE top-level form exactly as the batch evaluator
+   AV.Mini.Eval.eval_items does for a whole file (Facts.eval_items_cons); it is the StepOk
+   case of AV.Mini.Session.step_item, the function behind the tool's `forms` command
+   (Bridge.v).
 
    What the loop does per form (axlcomp.c:compGLoopEval): read the lines of one form
    (scan.c:scanIsContinued), run the front end on it in the file-level symbol table that
@@ -22,7 +24,7 @@
    incremental growth of the interpreter's function table, scanIsContinued (the python side
    runs a port of it on every form it feeds).                                              *)
 Require Import List String Bool Arith.
-Require Import AV.Mini.Syntax AV.Mini.Types AV.Mini.Eval AV.Mini.Session.
+Require Import AV.Mini.Syntax AV.Mini.Types AV.Mini.Eval.
 Import ListNotations.
 
 (* the front end's verdict on a form entered after the forms [acc] were accepted *)
@@ -35,6 +37,27 @@ Record loop_state : Type := mkLoop {
 
 Definition loop0 : loop_state := mkLoop [] (mkSt [] [] []).
 
+(* evaluate one top-level form; None: it does not complete normally (unhandled exception / error,
+   out of fuel, undefined, stuck)                                                            *)
+Definition form_step (F : list fundef) (f : nat) (s : state) (it : item) : option state :=
+  match it with
+  | IConst _ e | IVar _ e =>
+      match eval_expr F f (with_frame s []) e with
+      | RVal s1 v => Some (mkSt (sg s1 ++ [v]) [] (so s1))
+      | _ => None
+      end
+  | IFun _ => Some s
+  | IStmt st =>
+      match eval_stmt F f (with_frame s []) st with
+      | RVal s1 _ => Some (with_frame s1 [])
+      | _ => None
+      end
+  end.
+
+(* the text printed between two states of one run (output chunks are consed on) *)
+Definition printed_between (s s' : state) : string :=
+  String.concat "" (rev (firstn (List.length (so s') - List.length (so s)) (so s'))).
+
 (* the text the program has printed so far *)
 Definition transcript (x : loop_state) : string := output_of (l_st x).
 
@@ -46,7 +69,7 @@ Section Loop.
      (exception, error, out of fuel): the theorems say nothing about such sessions.          *)
   Definition loop_step (x : loop_state) (it : item) : option loop_state :=
     if accepts (l_acc x) it then
-      match step_item F fuel (l_st x) it with
+      match form_step F fuel (l_st x) it with
       | Some s' => Some (mkLoop (l_acc x ++ [it]) s')
       | None => None
       end
@@ -79,7 +102,7 @@ Section Loop.
     | [] => Some []
     | it :: r => match loop_step x it with
                  | Some x' => match session_outputs x' r with
-                              | Some outs => Some (delta (l_st x) (l_st x') :: outs)
+                              | Some outs => Some (printed_between (l_st x) (l_st x') :: outs)
                               | None => None
                               end
                  | None => None
